@@ -128,6 +128,10 @@ def build_args(cfg, call, S):
         kw["select"] = {"mesh": {call["var"]: value_array_fn(cfg, call), "level": (lambda kk: (lambda l: l <= kk))(call["k"])}}
     elif k == "position":
         kw["select"] = {"mesh": pos_fns()}
+    elif k == "position+level":
+        sel = pos_fns()
+        sel["level"] = level_fn()
+        kw["select"] = {"mesh": sel}
     elif k == "position+value":
         sel = pos_fns()
         sel[call["var"]] = value_array_fn(cfg, call)
@@ -258,7 +262,7 @@ def compare_dataset(cfg, lay, call, ds, fresh=True):
         return f"meta ncells: expected {exp['mesh'][4]} got {ds.meta['ncells']}"
     if "part" in exp and ds.meta["nparticles"] != exp["part"][4]:
         return f"meta nparticles: expected {exp['part'][4]} got {ds.meta['nparticles']}"
-    if call["kind"] in ("level", "value+level") and ds.meta["lmax"] != lay["exp"][call["req"] - 1]["lmax"]:
+    if call["kind"] in ("level", "value+level", "position+level") and ds.meta["lmax"] != lay["exp"][call["req"] - 1]["lmax"]:
         return f"meta lmax: expected {lay['exp'][call['req'] - 1]['lmax']} got {ds.meta['lmax']}"
     t = ds.meta["time"]
     try:
@@ -430,9 +434,9 @@ def run_c01(rep, tier, seed):
 
 def run_c12(rep, tier, seed):
     n = 100 if tier == "quick" else 1200
-    cfgs = [c for c in make_cfgs(tier, seed + 1, n) if c["levelmax"] >= 2]
+    cfgs = [c for c in make_cfgs(tier, seed + 1, n, n_hilbert3=n // 2) if c["levelmax"] >= 2]
     lays = tlc_layouts(rep, cfgs, "c12")
-    run_batch(rep, cfgs, lays, {"level", "value+level"}, "level-limited-loads", with_log=True)
+    run_batch(rep, cfgs, lays, {"level", "value+level", "position+level"}, "level-limited-loads", with_log=True)
     finish_rule(rep, "TLC checks that the leaves of the tree truncated at every level L tile the box exactly once (Tiling, NoOverlap) and computes Leaves(Truncate(tree, L)) filtered by the predicate; the real loader is called with level predicates l<=k, l<k, a<l<b, l==k alone and combined with a value predicate; rows, stored coarse values, meta lmax and the read log are compared")
 
 
@@ -448,7 +452,7 @@ def run_c13(rep, tier, seed):
 
 CLASS_CALLS = {
     "full": lambda c: c["kind"] == "full", "level": lambda c: c["kind"] == "level", "value": lambda c: c["kind"] == "value",
-    "position": lambda c: c["kind"] in ("position", "position+value"), "cpus": lambda c: c["kind"] == "cpus",
+    "position": lambda c: c["kind"] in ("position", "position+value", "position+level"), "cpus": lambda c: c["kind"] == "cpus",
     "g_mesh": lambda c: c["kind"] == "groups" and c["groups"] == ["mesh"], "g_part": lambda c: c["kind"] == "groups" and c["groups"] == ["part"],
     "g_mesh_part": lambda c: c["kind"] == "groups" and c["groups"] == ["mesh", "part"], "g_sink": lambda c: c["kind"] == "groups" and c["groups"] == ["sink"],
     "off_part": lambda c: c["kind"] == "off" and c["off"] == ["part"], "off_mesh": lambda c: c["kind"] == "off" and c["off"] == ["mesh"],
@@ -571,7 +575,7 @@ def run_c04_loads(rep, tier, seed):
     nh, ns = (150, 60) if tier == "quick" else (2500, 600)
     cfgs = make_cfgs(tier, seed + 6, ns, family=False, n_hilbert3=nh)
     lays = tlc_layouts(rep, cfgs, "c04")
-    run_batch(rep, cfgs, lays, {"position", "position+value", "value", "cpus"}, "selective-loads", with_log=False)
+    run_batch(rep, cfgs, lays, {"position", "position+value", "position+level", "value", "cpus"}, "selective-loads", with_log=False)
 
 
 # --------------------------------------------------------------------------- C14: particles and sinks
